@@ -186,7 +186,11 @@ def dmrg_matvec_python(A, x, y0 = None, nswp = 20, eps = 1e-12, rmax = 32768, ki
               # TME = datetime.datetime.now()
               if verb: print('\tcore ',k,': delta ',delta_cores[k],' rank ',Ry[k+1],' ->',r_new)
               Ry[k+1] = r_new 
-              _verif.emit('dmrg_step', sweep=int(i), k=int(k), rows=int(U.shape[0]), cols=int(V.shape[1]), r_svd=int(_r_svd), r_out=int(r_new), last=bool(last))
+              _x = {}
+              if _verif.enabled():
+                  _s2 = (tn.abs(S)**2).cpu().numpy()
+                  _x = dict(norm2=float(_s2.sum()), tail2=float(_s2[_r_svd:].sum()), nsv=int(_s2.size), cap=int(min(rmax[k+1], 2**31-1)), crit=float(delta_cores[k]))
+              _verif.emit('dmrg_step', sweep=int(i), k=int(k), rows=int(U.shape[0]), cols=int(V.shape[1]), r_svd=int(_r_svd), r_out=int(r_new), last=bool(last), **_x)
               # print(k,W1.shape,W2.shape,Ry,N)
               y_cores[k] = tn.conj(tn.reshape(W1,[Ry[k],M[k],r_new]))
               y_cores[k+1] = tn.conj(tn.reshape(W2,[r_new,M[k+1],Ry[k+2]]))
@@ -202,6 +206,7 @@ def dmrg_matvec_python(A, x, y0 = None, nswp = 20, eps = 1e-12, rmax = 32768, ki
               # TME = datetime.datetime.now()-TME   
               # print('\t\t ',TME.total_seconds())
         
+        _verif.emit('dmrg_sweep', sweep=int(i), crit=float(max(delta_cores)), eps=float(eps), last=bool(last))
         if last : break
         
 
@@ -373,7 +378,11 @@ def dmrg_hadamard_python(z, x, y0 = None, nswp = 20, eps = 1e-12, rmax = 32768, 
               # TME = datetime.datetime.now()
               if verb: print('\tcore ',k,': delta ',delta_cores[k],' rank ',Ry[k+1],' ->',r_new)
               Ry[k+1] = r_new 
-              _verif.emit('dmrg_step', sweep=int(i), k=int(k), rows=int(U.shape[0]), cols=int(V.shape[1]), r_svd=int(_r_svd), r_out=int(r_new), last=bool(last))
+              _x = {}
+              if _verif.enabled():
+                  _s2 = (tn.abs(S)**2).cpu().numpy()
+                  _x = dict(norm2=float(_s2.sum()), tail2=float(_s2[_r_svd:].sum()), nsv=int(_s2.size), cap=int(min(rmax[k+1], 2**31-1)), crit=float(delta_cores[k]))
+              _verif.emit('dmrg_step', sweep=int(i), k=int(k), rows=int(U.shape[0]), cols=int(V.shape[1]), r_svd=int(_r_svd), r_out=int(r_new), last=bool(last), **_x)
               # print(k,W1.shape,W2.shape,Ry,N)
               y_cores[k] = tn.conj(tn.reshape(W1,[Ry[k],M[k],r_new]))
               y_cores[k+1] = tn.conj(tn.reshape(W2,[r_new,M[k+1],Ry[k+2]]))
@@ -389,6 +398,7 @@ def dmrg_hadamard_python(z, x, y0 = None, nswp = 20, eps = 1e-12, rmax = 32768, 
               # TME = datetime.datetime.now()-TME   
               # print('\t\t ',TME.total_seconds())
         
+        _verif.emit('dmrg_sweep', sweep=int(i), crit=float(max(delta_cores)), eps=float(eps), last=bool(last))
         if last : break
         
         if max(delta_cores) < eps:
